@@ -4,6 +4,8 @@ package c04
 import (
 	"bytes"
 	"fmt"
+	"runtime"
+	"runtime/debug"
 	"sort"
 	"strings"
 
@@ -570,7 +572,25 @@ type state struct {
 	depth int
 }
 
+// gcSafe: the library represents an insertion point as an unsafe.Pointer to base+offset, which is ONE PAST THE
+// END of the buffer when the addressed container ends the buffer (root-level empty list/map, append at the end).
+// Go's GC rejects such a pointer when it happens to fall on the unused tail of a span ("fatal error: found bad
+// pointer in Go heap"), i.e. depending on heap layout. The exploration must not depend on that: automatic GC is
+// off while library values are live and collections run at safe points (no Node alive) only. (Observation
+// recorded in DESIGN.md 10.4; the harness also hands out buffers with spare capacity.)
+func gcSafe() func() {
+	old := debug.SetGCPercent(-1)
+	return func() { debug.SetGCPercent(old) }
+}
+
+func spare(b []byte) []byte {
+	c := make([]byte, len(b), len(b)+16)
+	copy(c, b)
+	return c
+}
+
 func search(s *tbin.Shape, n int, api string, maxDepth int) core.Result {
+	defer gcSafe()()
 	r := core.Result{Class: "ok"}
 	typed := api == "Value"
 	g := &tbin.Gen{}
@@ -599,7 +619,10 @@ func search(s *tbin.Shape, n int, api string, maxDepth int) core.Result {
 				continue
 			}
 			transitions++
-			buf := append([]byte{}, pre...)
+			if transitions%4000 == 0 {
+				runtime.GC() // safe point: no library value is alive here
+			}
+			buf := spare(pre)
 			var res implResult
 			if typed {
 				res = applyValue(d, buf, o)
@@ -655,7 +678,7 @@ func search(s *tbin.Shape, n int, api string, maxDepth int) core.Result {
 
 func forkCheck(r *core.Result, site, ctx string, t tbin.Type, pre []byte, o op, res implResult) {
 	pi := core.Catch(func() {
-		orig := generic.NewNode(thrift.Type(t), append([]byte{}, pre...))
+		orig := generic.NewNode(thrift.Type(t), spare(pre))
 		f := orig.Fork()
 		// edit the fork: origin must stay byte-identical
 		fr := applyNodeOn(&f, o)
@@ -666,7 +689,7 @@ func forkCheck(r *core.Result, site, ctx string, t tbin.Type, pre []byte, o op, 
 			r.Add(site+"|"+o.Trig+"|fork-result-differs", "%s: op on fork gives %x, on origin %x", ctx, f.Raw(), res.raw)
 		}
 		// edit the origin: a fork taken before must stay identical
-		orig2 := generic.NewNode(thrift.Type(t), append([]byte{}, pre...))
+		orig2 := generic.NewNode(thrift.Type(t), spare(pre))
 		f2 := orig2.Fork()
 		applyNodeOn(&orig2, o)
 		if !bytes.Equal(f2.Raw(), pre) {
